@@ -10,7 +10,7 @@ import ast
 
 from sa import dataflow as df
 from sa.term import C, H, I, INV, MUL, T, TermEval, alternatives, equal, has_opaque, norm, opaque_text, show, sym
-from sa.termutil import guard_hyps, strip_operand
+from sa.termutil import kind_def, guard_hyps, strip_operand
 
 OPAQUE_CLASSES = {"FFT": "FFT primitives", "Jacobian": "autodiff primitives", "Sliced": "scatter/gather buffers (shapes checked under C20)"}
 # the defining equation of wrapper / payload kinds:  A = <term over A's attributes>
@@ -155,8 +155,9 @@ def run(idx, rep, tier):
                 hyp = guard_hyps(idx, fi, r)
                 defs = {}
                 kind = kinds[0] if len(kinds) == 1 else None
-                if kind in KIND_DEF:
-                    defs[sym(a)] = KIND_DEF[kind](a)
+                kd = kind_def(idx, kind, a) if kind is not None else None
+                if kd is not None:
+                    defs[sym(a)] = kd
                 want = mk(sym(a))
                 if kind == "Sparse":
                     ok, why = sparse_rule(r.value, a, fname)
